@@ -30,7 +30,7 @@ ASSUMPTIONS = [
     "a frame whose reference reading contains an undefined or not-available code may be rejected (connection reset) or delivered with the defined fields right",
     "after a malformed point the rest of that connection's bytes carry no obligation (the client resets the connection)",
 ]
-PROBES = ["c17.declared_count_mismatch", "c17.unknown_type", "c17.unknown_ext_sub", "c17.unknown_cs_sub", "c17.longer_stride", "c17.mutated_len", "c17.mutated_type",
+PROBES = ["c17.longer_stride_repeated", "c17.declared_count_mismatch", "c17.unknown_type", "c17.unknown_ext_sub", "c17.unknown_cs_sub", "c17.longer_stride", "c17.mutated_len", "c17.mutated_type",
           "c17.mutated_payload", "c17.truncated", "c17.random", "c17.rejected_then_recovered"]
 
 
@@ -69,18 +69,24 @@ def generate(rng, index: int, tier: str) -> dict:
         from ref import wire5
 
         kind = rng.choice(["zone", "ac", "timer"])
-        extra = rng.choice([1, 2, 4, 9, 30])
-        n = rng.choice([1, 2, 4])
-        pad = lambda r, k: r[:k] + bytes(rng.randrange(256) for _ in range(extra))  # noqa: E731
-        if kind == "zone":
-            recs = [pad(wire5.enc_zone_status_record(dict(G.zone_state(rng, 5), zone=i)), 8) for i in range(n)]
-            frames.append(wire5.f_cs(1, wire5.S_ZONE_STATUS, recs, rlen=8 + extra))
-        elif kind == "ac":
-            recs = [pad(wire5.enc_ac_status_record(dict(G.ac_state(rng, 5), ac=i), 8), 8) for i in range(n)]
-            frames.append(wire5.f_cs(1, wire5.S_AC_STATUS, recs, rlen=8 + extra))
-        else:
-            recs = [pad(wire5.enc_timer_record({"ac": i, "on": G.timer(rng), "off": G.timer(rng)}), 9) for i in range(n)]
-            frames.append(wire5.f_cs(1, wire5.S_TIMER_STATUS, recs, rlen=9 + extra))
+        # one, or several in a row (a console with a longer layout sends every frame like that; what the client learnt from
+        # the first one must not spoil the next)
+        for rep in range(rng.choice([1, 1, 2, 3])):
+            if rep and rng.random() < 0.3:
+                kind = rng.choice(["zone", "ac", "timer"])
+            extra = rng.choice([1, 2, 4, 9, 30])
+            n = rng.choice([1, 2, 4])
+            pad = lambda r, k: r[:k] + bytes(rng.randrange(256) for _ in range(extra))  # noqa: E731
+            if kind == "zone":
+                recs = [pad(wire5.enc_zone_status_record(dict(G.zone_state(rng, 5), zone=i)), 8) for i in range(n)]
+                frames.append(wire5.f_cs(1 + rep, wire5.S_ZONE_STATUS, recs, rlen=8 + extra))
+            elif kind == "ac":
+                recs = [pad(wire5.enc_ac_status_record(dict(G.ac_state(rng, 5), ac=i), 8), 8) for i in range(n)]
+                frames.append(wire5.f_cs(1 + rep, wire5.S_AC_STATUS, recs, rlen=8 + extra))
+            else:
+                recs = [pad(wire5.enc_timer_record({"ac": i, "on": G.timer(rng), "off": G.timer(rng)}), 9) for i in range(n)]
+                frames.append(wire5.f_cs(1 + rep, wire5.S_TIMER_STATUS, recs, rlen=9 + extra))
+        info["stride_frames"] = len(frames)
         frames.append(framegen.frame(rng, gen)[0])
         data = b"".join(frames)
         info["stride_extra"] = extra
@@ -181,6 +187,8 @@ def execute(sc: dict) -> dict:
             probes["c17.unknown_cs_sub"] = 1
     if cls == "stride":
         probes["c17.longer_stride"] = 1
+        if info.get("stride_frames", 1) > 1:
+            probes["c17.longer_stride_repeated"] = 1
     if cls == "mutated":
         probes["c17.mutated_" + {"len": "len", "type": "type"}.get(info.get("where"), "payload")] = 1
     if cls in ("truncated", "random"):
@@ -211,7 +219,7 @@ def execute(sc: dict) -> dict:
         for i, r in enumerate(refs):
             if i >= len(got):
                 fully_defined = not _has_undef(r)
-                if r["kind"] in ("unknown", "ext_unknown", "cs_unknown") or (cls == "stride" and i == 0) or fully_defined:
+                if r["kind"] in ("unknown", "ext_unknown", "cs_unknown") or (cls == "stride" and i < info.get("stride_frames", 1)) or fully_defined:
                     if must:
                         V.append(viol("C17.not_delivered", {"frame": frames[i]["raw"].hex(), "reference": repr(r)[:300], "delivered": len(got), "of": len(refs)}, kind=r["kind"]))
                 break
